@@ -612,8 +612,23 @@ Definition desc_eqb (a b : desc) : bool :=
 (* correspondence glue (evaluated by vm_compute on every real emitted definition)            *)
 
 (* 0 = everything agrees; otherwise the first stage that fails *)
+(* what the SynthDef object itself declares for a parameter: name, first slot, rate, default words *)
+Definition declared_ok (ds : option desc) (decl : list (bytes * Z * Z * list Z)) : bool :=
+  match ds with
+  | None => true       (* the reader rejected the bytes: compared with the library at stage 5 *)
+  | Some d =>
+    forallb (fun p => let '(n, i, r, ws) := p in
+                      match nth_z (ds_ctls d) i with
+                      | Some c => opt_eqb bytes_eqb (c_name c) (Some n) && (c_rate c =? r)
+                                  && list_eqb Z.eqb (c_defs c) ws
+                      | None => false
+                      end) decl
+    && Bool.eqb (ds_gate d) (existsb (fun p => let '(n, _, _, _) := p in bytes_eqb n gate_name) decl)
+  end.
+
 Definition check_case (bs : bytes) (order : list (Z * bool)) (libdesc : option desc)
-           (names3 : list (bytes * Z * Z)) (vsrc : list (bytes * list (bytes * list Z))) : Z :=
+           (names3 : list (bytes * Z * Z)) (vsrc : list (bytes * list (bytes * list Z)))
+           (decl : list (bytes * Z * Z * list Z)) : Z :=
   match parse_def bs with
   | Err _ => 1                                                     (* real bytes do not parse *)
   | Ok d =>
@@ -621,6 +636,7 @@ Definition check_case (bs : bytes) (order : list (Z * bool)) (libdesc : option d
     if negb (opt_eqb bytes_eqb (write_def d) (Some bs)) then 3 else (* model writer does not reproduce the bytes *)
     if negb (Nat.eqb (List.length order) (List.length (d_units d)) && wfirst_ok order) then 4 else
     if negb (opt_eqb desc_eqb (read_desc bs) libdesc) then 5 else  (* library reader <> read_desc *)
+    if negb (declared_ok (read_desc bs) decl) then 7 else          (* recovered controls <> declared parameters *)
     if list_eqb variant_eqb (resolve_variants (d_name d) (d_ctl d) names3 vsrc) (d_variants d) then 0 else 6
   end.
 
